@@ -21,7 +21,8 @@ ASSUMPTIONS = ["qref itself sorts ports/resources/connections/links when a docum
 def gen_cases(rng, n, max_depth, exhaustive_children=False):
     out = []
     while len(out) < n:
-        r = H.gen_hierarchy(rng, max_depth=rng.randint(1, max_depth), max_children=4, mixed_types=rng.choice([0.0, 0.0, 0.3]), p_through=rng.choice([0.1, 0.35]))
+        r = H.gen_hierarchy(rng, max_depth=rng.randint(1, max_depth), max_children=4, mixed_types=rng.choice([0.0, 0.0, 0.3]), p_through=rng.choice([0.1, 0.35]),
+                            p_rep=rng.choice([0.2, 0.2, 0.5]))
         if H.count_nodes(r) > 10:
             continue
         if rng.random() < 0.25:
@@ -33,6 +34,14 @@ def gen_cases(rng, n, max_depth, exhaustive_children=False):
                 ps = [p for p in nd["ports"] if p["direction"] == "input" and p["size"] and p["size"][0] == "s"]
                 pa, pb = rng.sample(ps, 2)
                 pb["size"] = pa["size"]
+        if rng.random() < 0.5:
+            # a qubits resource on the child of a CONSTANT repetition (it is not carried up), listed anywhere among the child's
+            # additive and multiplicative ones: where it is listed changes nothing
+            for nd, _ in H._nodes(r):
+                rep = nd.get("repetition")
+                if rep and rep["sequence"]["kind"] == "constant" and nd["children"] and not any(x["name"] == "anc" for x in nd["children"][0]["resources"]):
+                    kid = nd["children"][0]
+                    kid["resources"].insert(rng.randrange(len(kid["resources"]) + 1), {"name": "anc", "type": "qubits", "value": E.num(rng.randint(1, 4))})
         if exhaustive_children and 2 <= len(r["children"]) <= 4:
             for perm in itertools.permutations(range(len(r["children"]))):
                 out.append({"routine": r, "seed": rng.randint(0, 10**9), "child_perm": list(perm)})
